@@ -10,7 +10,7 @@
    [cid_owned ops] = every circuit-id of the history is used by one MAC only (relayed option-82
    traffic allowed).  Without a guard the clauses are refuted (known finding K02a). *)
 From Coq Require Import NArith List.
-From Verif Require Import Model.Dhcp4 Model.Dhcp6 Proofs.Dhcp4Proofs Proofs.Dhcp4Circuit Proofs.Dhcp6Proofs.
+From Verif Require Import Model.Dhcp4 Model.Dhcp4Alloc Model.Dhcp6 Proofs.Dhcp4Proofs Proofs.Dhcp4Circuit Proofs.Dhcp4AllocProofs Proofs.Dhcp6Proofs.
 Import ListNotations.
 Local Open Scope N_scope.
 
@@ -135,6 +135,67 @@ Example C02_v4_quiet_weaker :
   cid_owned w_swap = false /\ quiet4 w_cfg w_swap = true /\
   quiet4 w_cfg (w_ops ++ [Discover (w_m 2 None true 1)]) = false.
 Proof. exact quiet_weaker. Qed.
+
+(* ------------------------------------------------------------------ DHCPv4, external allocator configured
+   Model/Dhcp4Alloc.v (code after fix 9e598d4): an op is (message, answer of the allocator's lookup during
+   that message).  The allocator is an oracle; guard [guardh c ops] =
+     oracle_inj ops    two hits naming the same address are hits for the same MAC
+     oracle_ext c ops  no hit names an assignable address of the local pool
+     quiet4h c ops     no DISCOVER/REQUEST takes its existing lease from the circuit-id index (as quiet4). *)
+
+Theorem C02_v4h_a_partial : forall c ops o s' r mk v c',
+  guardh c (ops ++ [o]) = true ->
+  step4h c (run4h c ops) o = (s', r, mk) -> reply_val r = Some v -> c' <> op_client (fst o) ->
+  ~ holds (run4h c ops) c' v.
+Proof. exact v4h_a_partial. Qed.
+Print Assumptions C02_v4h_a_partial.
+
+(* without oracle_inj: an allocator naming one address for two MACs gets it ACKed to both *)
+Theorem C02_v4h_a_refuted_bad_oracle : exists c ops o s' r mk v c',
+  oracle_inj (ops ++ [o]) = false /\ oracle_ext c (ops ++ [o]) = true /\ quiet4h c (ops ++ [o]) = true /\
+  step4h c (run4h c ops) o = (s', r, mk) /\ reply_val r = Some v /\ c' <> op_client (fst o) /\ holds (run4h c ops) c' v.
+Proof. exact v4h_a_refuted_bad_oracle. Qed.
+Print Assumptions C02_v4h_a_refuted_bad_oracle.
+
+Theorem C02_v4h_b_partial : forall c ops m1 m2 l1 l2,
+  guardh c ops = true ->
+  alookup m1 (leases (run4h c ops)) = Some l1 -> alookup m2 (leases (run4h c ops)) = Some l2 ->
+  l_ip l1 = l_ip l2 -> m1 = m2.
+Proof. exact v4h_b_partial. Qed.
+Print Assumptions C02_v4h_b_partial.
+
+(* (c): the value is an assignable address of the local pool, or an address the allocator named
+   for that very client in this history *)
+Theorem C02_v4h_c_partial : forall c ops o s' r mk v,
+  guardh c (ops ++ [o]) = true ->
+  step4h c (run4h c ops) o = (s', r, mk) -> reply_val r = Some v ->
+  usable4 c v = true \/ hit_of (ops ++ [o]) (op_client (fst o)) v.
+Proof. exact v4h_c_partial. Qed.
+Print Assumptions C02_v4h_c_partial.
+
+(* (e): refuted for allocator addresses (known finding K02d, marker 0203); what holds: an address that
+   is marked unavailable and that no lease holds comes back only as the allocator's answer *)
+Theorem C02_v4h_e_refuted : exists c ops1 m l o s' r mk,
+  guardh c (ops1 ++ [(Decline m, LkMiss); o]) = true /\
+  alookup (m_mac m) (leases (run4h c ops1)) = Some l /\ m_req m = Some (l_ip l) /\
+  step4h c (run4h c (ops1 ++ [(Decline m, LkMiss)])) o = (s', r, mk) /\ reply_val r = Some (l_ip l) /\ mk = [203].
+Proof. exact v4h_e_refuted. Qed.
+Print Assumptions C02_v4h_e_refuted.
+
+Theorem C02_v4h_e_partial : forall c ops o s' r mk v,
+  guardh c (ops ++ [o]) = true ->
+  step4h c (run4h c ops) o = (s', r, mk) -> reply_val r = Some v ->
+  In v (unavail (run4h c ops)) -> (forall m l, alookup m (leases (run4h c ops)) = Some l -> l_ip l <> v) ->
+  snd o = LkHit v.
+Proof. exact v4h_e_partial. Qed.
+Print Assumptions C02_v4h_e_partial.
+
+Example C02_v4h_guard_satisfiable :
+  guardh w_cfg w_h = true /\
+  (exists l, alookup 1 (leases (run4h w_cfg w_h)) = Some l /\ l_ip l = nx1) /\
+  (exists l, alookup 2 (leases (run4h w_cfg w_h)) = Some l /\ l_ip l = 167773953) /\
+  alookup 3 (leases (run4h w_cfg w_h)) = None.
+Proof. exact guardh_satisfiable. Qed.
 
 (* ------------------------------------------------------------------ DHCPv6 *)
 
